@@ -7,6 +7,6 @@ From MV Require Import Base.Res Model.EventTree Model.TreeOps.
 Extraction Language OCaml.
 
 Extraction "model.ml"
-  dur height wfb starts index_at ranges at_ flat
+  dur dsum height wfb starts index_at ranges at_ flat
   cut_out cut_off split_at split_child_at squash_in slide_in extend_until extend_until_default
   sequentialize concatenate seq_add get_by_tag set_by_tag del_by_tag remove_by tie_by lslice with_children children.
